@@ -143,7 +143,23 @@ def gen_opts(rng, combo=None):
     else:
         o["mode"] = "o"
         o["k"] = outmode - 1          # 2, 3, 4
+    # which of the given outputs are the null device (index 0 = untagged, i = Hi); /dev/null is a path like any
+    # other for split: the reads are written (to nowhere) and counted in the histogram
+    p = 2 if o["mode"] == "h" else o["k"]
+    given = [o["untagged"]] + ([o["h1"], o["h2"]] if o["mode"] == "h" else [True] * p)
+    x = rng.random()
+    if x < 0.7:
+        null = [False] * (p + 1)
+    elif x < 0.9:
+        null = [g and rng.random() < 0.5 for g in given]
+    else:
+        null = list(given)            # every given output: histogram only
+    o["null"] = null
     return o
+
+
+def opts_null(o):
+    return o.get("null") or [False] * (opts_ploidy(o) + 1)
 
 
 def opts_ploidy(o):
@@ -231,6 +247,21 @@ def gen_case(rng, combo=None, fmt=None, allow_empty_fastq=False, dup_list_names=
     for _ in range(nreads):
         name = rng.choice(pool)
         reads.append(gen_bam_read(rng, name, sq) if fmt == "bam" else gen_fastq_read(rng, name, allow_empty_fastq))
+    if fmt == "bam" and rng.random() < 0.45:
+        # both mates of a pair (one name, two records), adjacent or separated; sometimes plus a supplementary
+        # or secondary record of the same name
+        name = rng.choice(pool)
+        r1, r2 = gen_bam_read(rng, name, sq), gen_bam_read(rng, name, sq)
+        for r, (fm, fu) in ((r1, (rng.choice([99, 83, 65]), 77)), (r2, (rng.choice([147, 163, 129]), 141))):
+            r["flag"] = fm if r["ref"] is not None else fu
+        i = rng.randrange(len(reads) + 1)
+        reads.insert(i, r1)
+        reads.insert(i + 1 if rng.random() < 0.6 else rng.randrange(len(reads) + 1), r2)
+        if sq and rng.random() < 0.5:
+            r3 = gen_bam_read(rng, name, sq)
+            if r3["ref"] is not None:
+                r3["flag"] = rng.choice([2048, 2064, 256, 272])
+                reads.insert(rng.randrange(len(reads) + 1), r3)
     if fmt != "bam" and rng.random() < 0.25 and reads:
         # exact duplicate records (same name and content)
         reads.insert(rng.randrange(len(reads) + 1), list(rng.choice(reads)))
@@ -463,18 +494,19 @@ def prepare_case(case, d):
     ext = "bam" if case["fmt"] == "bam" else ("fastq.gz" if o["gzout"] else "fastq")
     p = opts_ploidy(o)
     paths = [None] * (p + 1)
+    null = opts_null(o)
     args = ["split"]
     if o["mode"] == "h":
         for i, key in ((1, "h1"), (2, "h2")):
             if o[key]:
-                paths[i] = os.path.join(d, f"out.h{i}.{ext}")
+                paths[i] = os.devnull if null[i] else os.path.join(d, f"out.h{i}.{ext}")
                 args += [f"--output-h{i}", paths[i]]
     else:
         for i in range(1, p + 1):
-            paths[i] = os.path.join(d, f"out.h{i}.{ext}")
+            paths[i] = os.devnull if null[i] else os.path.join(d, f"out.h{i}.{ext}")
             args += ["-o", paths[i]]
     if o["untagged"]:
-        paths[0] = os.path.join(d, f"out.untagged.{ext}")
+        paths[0] = os.devnull if null[0] else os.path.join(d, f"out.untagged.{ext}")
         args += ["--output-untagged", paths[0]]
     if o["add"]:
         args.append("--add-untagged")
@@ -511,8 +543,8 @@ def _collect(case, prep, rc, se):
         return obs
     outs, hdrs = [], []
     for x in paths:
-        if x is None:
-            outs.append(None)
+        if x is None or x == os.devnull:
+            outs.append(None)             # not given, or given as the null device: nothing to read back
         else:
             recs, hdr = read_output(case, x)
             outs.append(recs)
@@ -623,7 +655,8 @@ def cfg_term(case):
     o = case["opts"]
     p = opts_ploidy(o)
     reqh = [o["h1"], o["h2"]] if o["mode"] == "h" else [True] * p
-    return (f"(mkCfg {b(o['untagged'])} [{'; '.join(b(x) for x in reqh)}] {b(o['add'])} {b(o['largest'])} "
+    return (f"(mkCfg {b(o['untagged'])} [{'; '.join(b(x) for x in reqh)}] "
+            f"[{'; '.join(b(x) for x in opts_null(o))}] {b(o['add'])} {b(o['largest'])} "
             f"{b(o['discard'])} {b(o['hist'])})")
 
 
